@@ -65,3 +65,14 @@ Lemma c09_failure_located_witness :
   match w_c09_failure_not_in_graph_run 100 with CNoCand g nm _ => (nm, pin_of g "b") | _ => (EmptyString, None) end
     = ("b", Some None).
 Proof. exact w_c09_failure_not_in_graph_ok. Qed.
+
+(* C05: the last sentence of the statement ("releasing a project changes that project and only those pins
+   its new version forces to change") is false of the faithful model: first compile a==3.0 b==3.0 c==1.0;
+   fed back with c released, c ends at 1.0 again (b-3.0 needs c<=1.0) but a has moved to 4.1, a version no
+   requirement of the result asks for (a-3.0 is recorded by the solution and satisfies the only request, `a`). *)
+Lemma c05_release_residue_witness :
+  w_c05_release_residue_first_pins (w_c05_release_residue_first_run 100)
+    = [Some (Some "3.0"); Some (Some "3.0"); Some (Some "1.0")] /\
+  w_c05_release_residue_pins (w_c05_release_residue_run 100)
+    = [Some (Some "4.1"); Some (Some "3.0"); Some (Some "1.0")].
+Proof. split; [exact w_c05_release_residue_first_ok|exact w_c05_release_residue_ok]. Qed.
